@@ -30,7 +30,7 @@ RULE = ("each run draws capacity 1-12, a refill rate from {0.005..50}/s, 1-5 pee
         "bound over the admitted history. distinct = distinct (config, decision-vector, eviction "
         "pattern) signatures; non-trivial = at least one refusal AND (an eviction or a concurrent "
         "burst or a second address) occurred")
-PROBES = ["eviction_happened", "refusal", "slow_refill_run", "concurrent_burst", "wire_mode",
+PROBES = ["cleanup_race_scenario", "eviction_happened", "refusal", "slow_refill_run", "concurrent_burst", "wire_mode",
           "idle_ge_600_with_partial_bucket"]
 COMPONENTS = {
     "real": ["nauyaca.server.middleware.RateLimiter/TokenBucket/MiddlewareChain",
@@ -144,8 +144,7 @@ def run_one(ch):
         last_seen = {}
         for i in range(nev):
             gap = gaps[ch.choose("gap", len(gaps), gw)]
-            if gap:
-                await asyncio.sleep(gap)
+            await asyncio.sleep(gap)      # gap 0 still yields to the loop
             known = observe_buckets(known)
             ip = addrs[ch.choose("addr", naddr)]
             burst = 1
@@ -266,7 +265,46 @@ def run_one(ch):
         server.close()
         await rl.stop()
 
-    status = sim.run(wired() if wire else direct(), horizon=10_000_000.0, max_iterations=400000)
+    async def race():
+        """Requests that land exactly on a clean-up instant (k * 300 s) after more
+        than one address has been idle long enough to be evicted: the clean-up
+        pass and the burst are interleaved by the loop."""
+        rl = RateLimiter(RateLimitConfig(capacity=cap, refill_rate=rate, retry_after=retry))
+        rl_holder["rl"] = rl
+        rl.start()
+        loop = asyncio.get_running_loop()
+        t0 = ch.pick("race.t0", [0.0, 1.0, 10.0, 299.0])
+        if t0:
+            await asyncio.sleep(t0)
+        k = 2 + ch.choose("race.k", min(4, max(1, naddr)) if naddr >= 2 else 1)
+        used = (addrs + ["10.9.9.1", "10.9.9.2", "10.9.9.3"])[:max(2, k)]
+        known = set()
+        for ip in used:
+            for _ in range(1 + ch.choose("race.pre", cap)):
+                allow, resp = await rl.process_request("gemini://h.sim/", ip, None)
+                check_decision(net.now, ip, allow, resp)
+        full_at = net.now + cap / rate
+        b = 300.0 * (int(max(net.now + 600.0, full_at) // 300.0) + 1 + ch.choose("race.skip", 2))
+        fut = loop.create_future()
+        loop.call_at(b, fut.set_result, None)
+        await fut
+        known = set(getattr(rl, "buckets", {}).keys())
+        st["burst"] = True
+        for rnd in range(2 + ch.choose("race.rounds", 3)):
+            order = list(reversed(used)) if ch.choose("race.order", 2) else list(used)
+            for ip in order[:1 + ch.choose("race.n", len(order))]:
+                for _ in range(1 + ch.choose("race.b", cap + 1)):
+                    allow, resp = await rl.process_request("gemini://h.sim/", ip, None)
+                    check_decision(net.now, ip, allow, resp)
+            await asyncio.sleep(0)
+            known = observe_buckets(known)
+        await rl.stop()
+
+    race_mode = (not wire) and ch.chance("race", 0.15)
+    if race_mode:
+        res.stats["cleanup_race_scenario"] += 1
+    main = wired() if wire else (race() if race_mode else direct())
+    status = sim.run(main, horizon=10_000_000.0, max_iterations=400000)
     if sim.error is not None:
         raise sim.error
     if status != "done":
